@@ -98,8 +98,21 @@ def cyl_specs(draw, tier):
     return {"family": "cyl", "grid": g, "bits": bits, "via": "mask"}
 
 
+@st.composite
+def periodic_noise_specs(draw, tier):
+    """fully periodic 2-D / 3-D grids with percolation-like noise: many multi-piece components around corners"""
+    dim = draw(st.sampled_from([2, 2, 3]))
+    cap = (16 if tier == "quick" else 28) if dim == 2 else (7 if tier == "quick" else 10)
+    g = draw(gen.cart_grids(dims=(dim,), max_shape=(cap, cap, cap), min_shape=3, periodic=True))
+    shape = tuple(g["shape"])
+    seed = draw(st.integers(0, 2**31))
+    dens = draw(st.sampled_from([0.2, 0.3, 0.4, 0.5, 0.55, 0.6] if dim == 2 else [0.1, 0.15, 0.2, 0.25, 0.3]))
+    mask = np.random.default_rng(seed).random(shape) < dens
+    return {"family": "cart", "grid": g, "bits": gen.mask_to_bits(mask), "via": "mask"}
+
+
 def specs(tier):
-    return st.one_of(cart_specs(tier), cart_specs(tier), cyl_specs(tier))
+    return st.one_of(cart_specs(tier), cart_specs(tier), cyl_specs(tier), periodic_noise_specs(tier))
 
 
 # exhaustive domains: (name, kind, shape) ------------------------------------------------
@@ -111,9 +124,9 @@ class C02(Property):
     id = "C02"
     rule = (
         "Binary images fed to locate_droplets_in_mask (and to locate_droplets with a two-valued field + threshold). "
-        "Exhaustive: every image on small Cartesian grids for every periodicity mask and on small cylindrical grids "
+        "Exhaustive: every image on small Cartesian grids for every periodicity mask (plus all 65536 images of the fully periodic 4x4 grid) and on small cylindrical grids "
         "for both periodic_z; random: Hypothesis-built masks (cell-wise, noise at 5-70 % density, wrapped boxes, "
-        "persistent random walks = snakes/rings/winding paths, mixtures) on grids up to 40 / 16x16 / 8^3 cells "
+        "persistent random walks = snakes/rings/winding paths, mixtures, percolation-like noise on fully periodic 2-D/3-D grids) on grids up to 40 / 16x16 / 8^3 cells "
         "(cylindrical up to 8x16) with anisotropic spacings and arbitrary origins.  Oracle: independent BFS "
         "component labelling with periodic unwrapping; maximum bipartite matching of returned droplets to components "
         "by volume and (non-winding) unwrapped centre of mass modulo the period; pairwise sphere non-overlap under the "
@@ -127,7 +140,7 @@ class C02(Property):
     ]
 
     def budget(self, tier):
-        return {"examples": 2400 if tier == "quick" else 120000, "shards": 12 if tier == "quick" else 16}
+        return {"examples": 3200 if tier == "quick" else 120000, "shards": 12 if tier == "quick" else 16}
 
     def strategy(self, tier):
         return specs(tier)
@@ -146,6 +159,10 @@ class C02(Property):
                     chunk = max(1, total // (1 if total <= 4096 else 16 if total <= 70000 else 64))
                     for lo in range(0, total, chunk):
                         jobs.append({"domain": "cart-" + "x".join(map(str, shape)), "family": "cart", "shape": list(shape), "periodic": list(per), "variant": v, "lo": lo, "hi": min(total, lo + chunk)})
+        if tier == "quick":  # fully periodic 4x4: all 65536 images (corner-straddling multi-piece components)
+            total = 2**16
+            for lo in range(0, total, total // 32):
+                jobs.append({"domain": "cart-4x4-fully-periodic", "family": "cart", "shape": [4, 4], "periodic": [True, True], "variant": 0, "lo": lo, "hi": lo + total // 32})
         cyl = [(2, 4), (3, 3), (2, 5)] if tier == "quick" else [(2, 4), (3, 3), (2, 6), (3, 5), (4, 4)]
         for shape in cyl:
             n = shape[0] * shape[1]
